@@ -28,7 +28,7 @@ def run(ctx):
     cs = consts(ctx)
     cases_file, cases = p3.generate(ctx, "GraphSem", cs)
     ctx.log(f"{len(cases)} cases", dict(Counter(c["op"] for c in cases)))
-    results = [result_of(c) for c in cases]
+    cases, results = p3.execute(ctx, cases, cases_file, result_of)
     rf = ctx.scratch / "c11_results.json"
     rf.write_text(json.dumps(results))
     ctx.log("results written")
